@@ -46,13 +46,21 @@ func zvInorder(n *Node[int, int], keys, vals *[]int) {
 	zvInorder(n.Right, keys, vals)
 }
 
+// zvDrift is how far the size counter lags behind the number of nodes in the generated pre-state.
+// Reachable states have counter = nodes - (number of earlier Deletes of absent keys): that
+// decrement is the recorded known finding (pinned by bstree.Example), so every operation must be
+// correct from such states too; each Size clause below is stated relative to the drift.
+var zvDrift int
+
 func zvTree(kind int) (*BsTree[int, int], []int, []int) {
 	n := vrt.Choice(vrt.Pick(4, 6) + 1)
 	comp := zvComp(kind)
 	root := zvGen(n, nil, nil, comp)
 	var keys, vals []int
 	zvInorder(root, &keys, &vals)
-	return &BsTree[int, int]{comp: comp, root: root, size: n}, keys, vals
+	zvDrift = vrt.Int()
+	vrt.Assume(vrt.And(zvDrift >= 0, zvDrift < 1<<32))
+	return &BsTree[int, int]{comp: comp, root: root, size: n - zvDrift}, keys, vals
 }
 
 // lookup as terms (no forks): found, value
@@ -88,7 +96,7 @@ func ZvC04_S1_Get() {
 	} else {
 		vrt.Assert(vrt.And(err == ErrorNotFound, it.Key == 0, it.Val == 0), "C04/Get/not-found-error")
 	}
-	vrt.Assert(b.Size() == len(keys), "C04/Size")
+	vrt.Assert(b.Size() == len(keys)-zvDrift, "C04/Size")
 	vrt.Assert(vrt.LocksHeld() == 0, "C04/Get/lock-released")
 }
 
@@ -102,7 +110,7 @@ func ZvC04_S1_Upsert() {
 	vrt.Assert(zvOrdered(pk, b.comp), "C04/Upsert/search-tree-order")
 	was, _ := zvLookup(keys, vals, k)
 	vrt.Assert(len(pk) == len(keys)+vrt.B2I(!was), "C04/Upsert/node-count")
-	vrt.Assert(b.Size() == len(pk), "C04/Upsert/Size-is-number-of-keys")
+	vrt.Assert(b.Size() == len(pk)-zvDrift, "C04/Upsert/Size-is-number-of-keys")
 	q := vrt.Int()
 	f0, v0 := zvLookup(keys, vals, q)
 	f1, v1 := zvLookup(pk, pv, q)
@@ -138,7 +146,7 @@ func ZvC04_S1_Delete() {
 	if len(keys) >= 3 {
 		vrt.Cover("C04/Delete/three-or-more-nodes")
 	}
-	vrt.AssertUnless(!was, b.Size() == len(pk), "C04/Delete/Size-is-number-of-keys")
+	vrt.AssertUnless(!was, b.Size() == len(pk)-zvDrift, "C04/Delete/Size-is-number-of-keys")
 }
 
 func ZvC04_S1_Traverse() {
